@@ -2,6 +2,7 @@ package main
 
 import (
 	"go/token"
+	"strings"
 
 	"golang.org/x/tools/go/ssa"
 )
@@ -446,6 +447,7 @@ func checkC14(p *Prog, r *Report) {
 	if a == nil {
 		return
 	}
+	p.cleanWalkRules(r)
 	// (1)
 	rule := "E5.protection-established"
 	final, tmp := a.tempAndFinal()
@@ -622,4 +624,46 @@ func checkC14(p *Prog, r *Report) {
 			r.check(guarded, rule, "loop left early only when total < lowWaterMark", p.pos(sub.Pos()), fnName(cl), "the early exit compares the decreased total with the low-water mark", "the eviction loop's early exit is not the comparison of the updated total with the low-water mark")
 		}
 	}
+}
+
+// cleanWalkRules: (a) the paths the cleaner sees must be spelled like the paths that were marked as protected:
+// marks are keyed by strings built from cache.Dir as configured, so the walk must start from that very value, not from
+// a resolved / absolute / cleaned form of it. (b) sizing an entry never follows links: entries legitimately contain
+// dangling symlinks (RecursiveLink stores them as they are), and an error while sizing aborts the whole clean.
+func (p *Prog) cleanWalkRules(r *Report) {
+	clean := p.Fn("cache", "dirCache.clean")
+	findSize := p.Fn("cache", "findSize")
+	if clean == nil || findSize == nil {
+		r.unresolved("E10.walk-root-is-the-marked-prefix", "cache.dirCache.clean / cache.findSize")
+		return
+	}
+	n := 0
+	eachInstr(clean, false, func(_ *ssa.Function, i ssa.Instruction) {
+		c, ok := i.(*ssa.Call)
+		if !ok || !isCallTo(c, "fs.Walk", "fs.WalkMode", "path/filepath.Walk", "path/filepath.WalkDir") {
+			return
+		}
+		n++
+		root := c.Call.Args[0]
+		plain := fieldKeyOfLoad(root) == "cache.dirCache.Dir"
+		via := ""
+		for t := range tagsOf(root, SliceOpts{}) {
+			if strings.HasPrefix(t, "call:") {
+				via = strings.TrimPrefix(t, "call:")
+			}
+		}
+		r.check(plain && via == "", "E10.walk-root-is-the-marked-prefix", "the cleaner walks cache.Dir as configured", p.pos(c.Pos()), fnName(clean), "the walk root is a plain load of dirCache.Dir", "the cleaner walks a transformed form of the cache directory ("+via+"): protected entries are recorded under paths built from cache.Dir as configured, so when the two spellings differ (a symlink in the cache path) no walked path matches a mark and entries stored or retrieved by this very process are evicted")
+	})
+	if n == 0 {
+		r.unresolved("E10.walk-root-is-the-marked-prefix", "directory walk in dirCache.clean")
+	}
+	follows := ""
+	for _, g := range withAnon(findSize) {
+		eachInstr(g, false, func(_ *ssa.Function, i ssa.Instruction) {
+			if c, ok := i.(*ssa.Call); ok && isCallTo(c, "os.Stat", "fs.Stat") {
+				follows = calleeName(&c.Call)
+			}
+		})
+	}
+	r.check(follows == "", "E7.sizing-does-not-follow-links", "findSize never follows a symlink", p.pos(findSize.Pos()), fnName(findSize), "sizes come from the walker's own (l)stat information", "findSize stats entries with "+follows+", which follows symlinks: a dangling link inside a cache entry makes it fail, clean() returns on the error before evicting anything, and the cache stays above its bound")
 }
